@@ -195,7 +195,7 @@ def gen_pipe_ops(rng, raw_src, allow_process=True):
     for _ in range(n):
         k = rng.below(8)
         if k <= 2:
-            ops.append(["where", rng.range(0, 8)])
+            ops.append(["where", rng.range(0, 5)])
         elif k == 3 and not have_window:
             ops.append(["window", rng.range(2, 3)])
             have_window = True
@@ -215,13 +215,13 @@ def gen_pipe_ops(rng, raw_src, allow_process=True):
             ops.append(["distinct"])
         elif k == 7:
             ops.append(["limit", rng.range(1, 4)])
-    if rng.chance(3, 4):
+    if rng.chance(4, 5):
         ops.append(["emit"])
     return ops
 
 
-def gen_program(rng, max_streams=5, shape=None):
-    """Streams S1..Sn; sources are raw types or earlier (sometimes later / own) stream names."""
+def gen_program(rng, max_streams=5, shape=None, acyclic=False):
+    """Streams S1..Sn; sources are raw types or earlier (sometimes, unless acyclic, later / own) stream names."""
     n = rng.range(1, max_streams)
     shape = shape or rng.choice(["free", "free", "chain", "diamond", "noemit", "mixed"])
     p = []
@@ -234,7 +234,7 @@ def gen_program(rng, max_streams=5, shape=None):
             c = rng.below(10)
             if prev and c < 4 + 2 * derived_bias:
                 return rng.choice(prev)
-            if c == 9 and rng.chance(1, 3):
+            if c == 9 and rng.chance(1, 3) and not acyclic:
                 return rng.choice(names)          # forward reference or own name (self-named type)
             return rng.choice(RAW)
         if shape == "chain" and prev:
@@ -302,7 +302,7 @@ def gen_events(rng, p, n=None):
         else:
             t = rng.choice(pool)
         evs.append({"type": t, "ts_ns": ts,
-                    "fields": [["x", {"i": str(rng.range(-1, 9))}], ["k", {"i": str(rng.below(2))}]]})
+                    "fields": [["x", {"i": str(rng.range(0, 9))}], ["k", {"i": str(rng.below(2))}]]})
     return evs
 
 
@@ -572,6 +572,11 @@ def answer_ok(a):
     return "steps" in a and all(not s.get("error") for s in a["steps"])
 
 
+def rejected(a):
+    """the generated program did not parse / load (a generator problem, not a finding)"""
+    return "steps" not in a and "error" in a and "panic" not in a
+
+
 def all_out(a):
     return [e for s in a["steps"] for e in s["out"]]
 
@@ -656,3 +661,91 @@ def count_case(run, case, shape, answers):
         run.count("deliveries=%s" % ("0" if not tr else "1-5" if len(tr) <= 5 else "6-20" if len(tr) <= 20 else ">20"))
         no = len(all_out(answers[0]))
         run.count("outputs=%s" % ("0" if not no else "1-3" if no <= 3 else ">3"))
+
+
+def three_way_check(run, binpath, cases, judge, tag, contradicts):
+    """cases: list of ((program, events, batch sizes), shape). judge(case, answers) -> list of failure strings
+    (the property's oracle on the implementation). Runs the three entry points, the oracle, and the
+    model/implementation comparison."""
+    answers = run_three(binpath, [c for c, _ in cases])
+    exprs = []
+    impls = []
+    n_oracle = 0
+    n_rejected = 0
+    for (case, shape), ans in zip(cases, answers):
+        count_case(run, case, shape, ans)
+        if any(rejected(a) for a in ans):
+            run.count("program-rejected")
+            n_rejected += 1
+            if n_rejected <= 2:
+                run.tie_broken("generated program rejected by parse/load (grammar of the generator out of date?)",
+                               vpl_program(case[0]) + json.dumps([a for a in ans if rejected(a)][0])[:400])
+            run.case(None)
+            continue
+        fails = judge(case, ans)
+        if fails:
+            n_oracle += 1
+            run.count("oracle_fail")
+            if n_oracle <= 3:
+                def still(c):
+                    return bool(judge(c, run_three(binpath, [c])[0]))
+                small = shrink_case(case, still)
+                sa = run_three(binpath, [small])[0]
+                sf = judge(small, sa) or fails
+                run.violation("; ".join(sf)[:600], replay_obj(small, sa, sf, contradicts))
+        ok = all(answer_ok(a) for a in ans)
+        if ok and max(len(all_trace(a)) for a in ans) > MAX_TRACE:
+            run.count("model-skipped(trace too long)")
+            run.case(None)
+        elif ok:
+            impl, ex, tbl = model_exprs_three(case, ans)
+            if tbl.conflicts:
+                run.tie_broken("stream pipeline is not a deterministic function of its delivery history", json.dumps(tbl.conflicts[0][1])[:500])
+            impls.append((case, impl))
+            exprs += ex
+            tr = all_trace(ans[0])
+            nontrivial = None
+            if all_out(ans[0]) and (any(d["depth"] >= 1 for d in tr) or len({d["stream"] for d in tr}) >= 2):
+                nontrivial = json.dumps([case[0], case[1], case[2]], sort_keys=True)
+            run.case(nontrivial, sample={"vpl": vpl_program(case[0]), "events": [short_event(e) for e in case[1]], "batches": case[2],
+                                         "out": [short_event(e) for e in all_out(ans[0])]} if len(run.samples) < 3 and nontrivial else None)
+        else:
+            run.case(None)
+    run.extra["oracle_failures"] = n_oracle
+    model = eval_model(run, tag, exprs)
+    nd = 0
+    for i, (case, impl) in enumerate(impls):
+        for j, m in enumerate(MODES):
+            mo = model[3 * i + j]
+            if mo is not None and mo != impl[j]:
+                nd += 1
+                if nd <= 3:
+                    run.tie_broken("correspondence Dispatch/Model.v vs Engine::%s on\n%s events %s batches %s" % (
+                        {"event": "process", "batch": "process_batch", "sync": "process_batch_sync"}[m],
+                        vpl_program(case[0]), [short_event(e) for e in case[1]], case[2]), first_diff(impl[j], mo))
+    run.extra["disagreements"] = nd
+
+
+def replay_obj(case, answers, fails, contradicts):
+    p, evs, sizes = case
+    return {"vpl": vpl_program(p), "program": p, "events": evs, "batch_sizes": sizes,
+            "outputs": {m: [short_event(e) for e in all_out(a)] if "steps" in a else a for m, a in zip(MODES, answers)},
+            "fails": fails, "contradicts": contradicts}
+
+
+def replay_three(run, path, judge, contradicts):
+    r = json.load(open(path))["replay"]
+    ok, bindir, lg = harness.build("vp-dispatch")
+    binpath = os.path.join(bindir, "vp-dispatch")
+    case = (r["program"], r["events"], r["batch_sizes"])
+    ans = run_three(binpath, [case])[0]
+    fails = judge(case, ans)
+    run.case(("replay",), {"vpl": r["vpl"]})
+    run.case(("replay2",))
+    if fails:
+        run.violation("; ".join(fails)[:600], replay_obj(case, ans, fails, contradicts))
+
+
+def mk_events(evs):
+    return [{"type": t, "ts_ns": (i + 1) * 1_000_000_000, "fields": [["x", {"i": str(x)}], ["k", {"i": str(k)}]]}
+            for i, (t, x, k) in enumerate(evs)]
